@@ -535,6 +535,8 @@ def run(chk):
     d3(chk, prog)
     d3c(chk, prog)
     d3b(chk, prog)
+    from . import C14
+    C14.d2(chk, prog)            # the HMM methods' segments are the runs of equal state within a chromosome (arm): squash_by_groups (C14-D2 rule)
     d4(chk, prog)
     d4b(chk, prog)
     d5(chk, prog)
